@@ -130,6 +130,12 @@ def step(x, p):
         x.check('no token before the construct closes', len(toks) == 0,
                 known=sig)
         x.check('mode kept', impl_mode(lx) == mode2, known=sig)
+        if i == n:
+            l1, c1 = count_pos(buf, n, line0, col0)
+            x.check('line counter after the chunk', lx._cur_lineno == l1,
+                    known=sig)
+            x.check('column counter after the chunk', lx._cur_charno == c1,
+                    known=sig)
         if i == n and len(toks) == 0 and impl_mode(lx) == mode2:
             if mode[0] == 'string':
                 got = b''.join(lx._in_string)
